@@ -1101,6 +1101,18 @@ func (u *Unit) applyContract(st *State, e *ast.CallExpr, callee *types.Func, ct 
 	// results
 	u.bumpAlloc(st)
 	rs := u.freshResults(st, sig, "r_"+callee.Name())
+	if ct.Pure {
+		// a pure function: its results are functions of its argument values
+		var args []Term
+		if ca.recv != nil {
+			args = append(args, *ca.recv)
+		}
+		args = append(args, ca.args...)
+		for i := range rs {
+			pt := u.pureFuncApp(callee, args, i)
+			st.assume(eq(rs[i].S, pt.S))
+		}
+	}
 	for i := 0; i < sig.Results().Len(); i++ {
 		rv := sig.Results().At(i)
 		if rv.Name() != "" && rv.Name() != "_" {
@@ -1145,6 +1157,23 @@ func (u *Unit) recordLenHints(f string) {
 	}
 }
 
+// pureFuncApp: i-th result of a pure repo function as an uninterpreted function of its arguments.
+func (u *Unit) pureFuncApp(callee *types.Func, args []Term, i int) Term {
+	sig := callee.Type().(*types.Signature)
+	var sorts, as []string
+	for _, a := range args {
+		sorts = append(sorts, u.c.sortOf(a.T))
+		as = append(as, a.S)
+	}
+	rt := sig.Results().At(i).Type()
+	name := fmt.Sprintf("pf%d_%s", i, sanitize(callee.FullName()))
+	u.c.declareFun(name, "("+strings.Join(sorts, " ")+") "+u.c.sortOf(rt))
+	if len(as) == 0 {
+		return Term{S: name, T: rt}
+	}
+	return Term{S: "(" + name + " " + strings.Join(as, " ") + ")", T: rt}
+}
+
 func (u *Unit) exprTextShort(e ast.Node) string {
 	s := strings.Join(strings.Fields(u.exprText(e)), "")
 	if len(s) > 40 {
@@ -1180,7 +1209,24 @@ func calleeKeyFull(f *types.Func) string {
 }
 
 // havocTarget havocs what a modifies clause names: a slice's elements, a pointer's cell, a map.
+func ghostModifies(m Clause) (string, ast.Expr, bool) {
+	if c, ok := ast.Unparen(m.Expr).(*ast.CallExpr); ok {
+		if id, ok := c.Fun.(*ast.Ident); ok && (id.Name == "written" || id.Name == "consumed") && len(c.Args) == 1 {
+			return id.Name, c.Args[0], true
+		}
+	}
+	return "", nil, false
+}
+
 func (u *Unit) havocTarget(st *State, env *SpecEnv, m Clause) {
+	if name, arg, ok := ghostModifies(m); ok {
+		ref := env.eval(arg)
+		h := u.ghostHeap(name)
+		cur := u.heapRead(st, h)
+		nv := u.c.fresh("cnt", "Int")
+		u.heapWrite(st, h, fmt.Sprintf("(store %s %s %s)", cur, ref.S, nv))
+		return
+	}
 	t := env.eval(m.Expr)
 	if t.T == nil {
 		return
